@@ -107,7 +107,10 @@ def gen(params):
         cps_ = list(range(0x80, 0x100)) + [0x100 * k + b for k in (0x01, 0x04, 0x21) for b in range(256)] + \
             [0x10000 + b for b in range(128)]
         for a in cps_:
-            for ctx in ([a], [0x61, 0x62, 0x2E, 0x2D, 0x5F, 0x7E, a], [0x25, a, a], [0x25, 0x34, a]):
+            for ctx in ([a], [0x61, 0x62, 0x2E, 0x2D, 0x5F, 0x7E, a], [0x25, a, a], [0x25, 0x34, a],
+                        # a run of the (possibly wide) character BEFORE an escape / a plus: whatever pre-scans the text must count
+                        # in characters of its storage width, not in bytes
+                        [a] * 6 + [0x25, 0x34, 0x31], [a] * 5 + [0x2B, 0x25, 0x32, 0x66]):
                 for name in QUOTERS:
                     yield {"kind": "quote", "name": name, "in": ctx}
                 for name in UNQUOTERS:
